@@ -16,9 +16,9 @@ from scipy import integrate, interpolate, sparse
 
 from bluebonnet.flow.flowproperties import FlowProperties
 
-_ATOL = 1e-12
+_ATOL = 0.0  # no absolute floor: the scaled pseudopressure of a liquid table is of order 1e-6
 _RTOL = 1e-13
-_RESIDUAL_RTOL = 1e-10  # accepted true residual of a step, relative to its right-hand side
+_RESIDUAL_RTOL = 1e-12  # accepted true residual of a step, relative to its right-hand side
 
 
 @dataclass
